@@ -49,6 +49,9 @@ pub fn exec(t: &[&str]) -> Option<String> {
     }
 }
 
+/// the string behind a formatting result (empty if the implementation panicked, so that the direct checks fail instead of the run)
+fn text_of(h: &str) -> String { if h == "-" { String::new() } else { hex::decode(h).ok().and_then(|b| String::from_utf8(b).ok()).unwrap_or_default() } }
+
 fn digit_string(rng: &mut Rng, n: usize, zero_bias: u64) -> String {
     (0..n).map(|_| if rng.chance(zero_bias, 10) { '0' } else { (b'0' + rng.below(10) as u8) as char }).collect()
 }
@@ -194,12 +197,12 @@ pub fn run(o: &mut Out, tier: &str, seed: u64) {
             if i >= 120 && !rng.chance(2, 5) { continue; }
             let h = o.op(format!("c15_fmt u {} {}", dn, a), true); let hd = o.op(format!("c15_fmt_denom u {} {}", dn, a), true);
             o.stat(&format!("fmt.u.{}", dn));
-            let (s, sd) = (String::from_utf8(unhex(&h)).unwrap_or_default(), String::from_utf8(unhex(&hd)).unwrap_or_default());
+            let (s, sd) = (text_of(&h), text_of(&hd));
             let want = if a <= i64::MAX as u64 { Some(a) } else { None };
-            let got = Amount::from_str_in(&s, *d).ok().map(|x| x.as_pico());
-            o.direct(got == want, "parse(format a) == a (unsigned)", format!("{} {}", dn, a), format!("{:?} via {:?}", got, s), format!("{:?}", want));
-            let got = Amount::from_str(&sd).ok().map(|x| x.as_pico());
-            o.direct(got == want, "parse(format_with_suffix a) == a (unsigned)", format!("{} {}", dn, a), format!("{:?} via {:?}", got, sd), format!("{:?}", want));
+            let got = { let (s, d) = (s.clone(), *d); guarded(move || Amount::from_str_in(&s, d).ok().map(|x| x.as_pico())) };
+            o.direct(got == Ok(want), "parse(format a) == a (unsigned)", format!("{} {}", dn, a), format!("{:?} via {:?}", got, s), format!("{:?}", want));
+            let got = { let sd = sd.clone(); guarded(move || Amount::from_str(&sd).ok().map(|x| x.as_pico())) };
+            o.direct(got == Ok(want), "parse(format_with_suffix a) == a (unsigned)", format!("{} {}", dn, a), format!("{:?} via {:?}", got, sd), format!("{:?}", want));
             // shape: exactly `dec` fraction digits
             let frac = s.split('.').nth(1).map(|f| f.len()).unwrap_or(0);
             o.direct(frac == *dec && (s.contains('.') == (*dec > 0)), "exactly `decimals` fraction digits", format!("{} {}", dn, a), s.clone(), format!("{} fraction digits", dec));
@@ -210,12 +213,12 @@ pub fn run(o: &mut Out, tier: &str, seed: u64) {
             if i >= 120 && !rng.chance(1, 5) { continue; }
             let h = o.op(format!("c15_fmt s {} {}", dn, a), true); let hd = o.op(format!("c15_fmt_denom s {} {}", dn, a), true);
             o.stat(&format!("fmt.s.{}", dn));
-            let (s, sd) = (String::from_utf8(unhex(&h)).unwrap_or_default(), String::from_utf8(unhex(&hd)).unwrap_or_default());
+            let (s, sd) = (text_of(&h), text_of(&hd));
             let want = if a != i64::MIN { Some(a) } else { None };
-            let got = SignedAmount::from_str_in(&s, *d).ok().map(|x| x.as_pico());
-            o.direct(got == want, "parse(format a) == a (signed)", format!("{} {}", dn, a), format!("{:?} via {:?}", got, s), format!("{:?}", want));
-            let got = SignedAmount::from_str(&sd).ok().map(|x| x.as_pico());
-            o.direct(got == want, "parse(format_with_suffix a) == a (signed)", format!("{} {}", dn, a), format!("{:?} via {:?}", got, sd), format!("{:?}", want));
+            let got = { let (s, d) = (s.clone(), *d); guarded(move || SignedAmount::from_str_in(&s, d).ok().map(|x| x.as_pico())) };
+            o.direct(got == Ok(want), "parse(format a) == a (signed)", format!("{} {}", dn, a), format!("{:?} via {:?}", got, s), format!("{:?}", want));
+            let got = { let sd = sd.clone(); guarded(move || SignedAmount::from_str(&sd).ok().map(|x| x.as_pico())) };
+            o.direct(got == Ok(want), "parse(format_with_suffix a) == a (signed)", format!("{} {}", dn, a), format!("{:?} via {:?}", got, sd), format!("{:?}", want));
             let frac = s.split('.').nth(1).map(|f| f.len()).unwrap_or(0);
             o.direct(frac == *dec && (s.contains('.') == (*dec > 0)), "exactly `decimals` fraction digits", format!("{} {}", dn, a), s.clone(), format!("{} fraction digits", dec));
         }
